@@ -3,41 +3,175 @@
 Decides: encoder / decoder / validator dispatch agreement (R1); canonical sorted-key JSON, SHA-256,
 UTF-8, full hex digest (R2); normalise, then hash, then call (R3).  Injectivity and invariance over
 all value pairs are not decided.
+
+The clauses are decided on roles and flows: type sets are collected from every test on the value
+(whatever the shape of the ladder), results are read per path class (`result_cases`), the constructor
+is looked at with its private helpers flattened in (`c16.flat_method`), objects are followed to the
+definition that created them (`c16.origin`), strings through `astutil.str_parts`.
 """
 import ast
 
 from .. import astutil as A
 from ..fa import FA
+from ..loader import AnalysisError
 from .valeq import check_typed_identity
 from .ladders import extract_ladder, check_ladder_order, repo_subclass_pairs
+from .c16 import (FlatInit, canon_conj, conds, ftext, is_copy_of, lit_expr, origin, same_def, single_def, strip_cast, _ref_name)
 
 AH = "reference.ArgumentHasher"
 FRA = "reference.FunctionReferenceWithArguments"
 PRIMS = {"bool", "str", "int", "float"}
+TAG = "_mementoType"
 
 
-def _prim_test_types(test):
-    """`x is None or isinstance(x, bool) or ...` -> set of type names (plus 'None')."""
+def _subject_is(fa, e, param):
+    """does expression `e` (inside fa) denote the parameter `param`?"""
+    if isinstance(e, ast.Name) and e.id == param:
+        return True
+    ids = fa.nodes(e)
+    try:
+        return bool(ids) and fa.xnorm(e, ids[0]) == param
+    except AnalysisError:
+        return False
+
+
+def _value_types(fa, param):
+    """Every type the function tests its value parameter against, wherever the test is written (an `or`
+    chain, a tuple, an if / elif ladder, guard clauses, a returned boolean expression): set of type names,
+    plus 'None' for an identity test against None."""
     out = set()
-    for a in A.test_atoms(test):
-        it = A.isinstance_types(a)
-        if it:
-            out |= set(it[1])
-        elif isinstance(a, ast.Compare) and isinstance(a.ops[0], ast.Is) and A.is_none(a.comparators[0]):
+    for n in A.walk_body(fa.node):
+        if isinstance(n, ast.Call) and isinstance(n.func, ast.Name) and n.func.id == "isinstance" and len(n.args) == 2 and _subject_is(fa, n.args[0], param):
+            t = n.args[1]
+            out |= {A.norm(e) for e in t.elts} if isinstance(t, ast.Tuple) else {A.norm(t)}
+        elif isinstance(n, ast.Compare) and len(n.ops) == 1 and isinstance(n.ops[0], (ast.Is, ast.IsNot, ast.Eq, ast.NotEq)) \
+                and A.is_none(n.comparators[0]) and _subject_is(fa, n.left, param):
             out.add("None")
-        elif isinstance(a, ast.BoolOp) and isinstance(a.op, ast.And):
-            it2 = A.isinstance_types(a.values[0])
-            if it2:
-                out |= set(it2[1])
     return out
 
 
-def _accepted_types(fa: FA):
-    types = set()
-    for st in fa.node.body:
-        if isinstance(st, ast.If):
-            types |= _prim_test_types(st.test)
-    return types
+def result_cases(fa):
+    """What the function returns under which path condition: [(conjunct, value expression, node)].  A single
+    exit that returns a local assigned on several branches is split into those assignments, a conditional
+    expression into its two cases."""
+    out = []
+
+    def split(conj, v, at):
+        try:
+            e = strip_cast(fa.expand(v, at))
+        except AnalysisError:
+            e = v
+        if isinstance(e, ast.IfExp):
+            for pol, branch in ((True, e.body), (False, e.orelse)):
+                extra = canon_conj(fa._atoms(e.test, at, pol))
+                if any((t, not p) in conj for (t, p) in extra):
+                    continue
+                split(frozenset(conj | extra), branch, at)
+            return
+        out.append((conj, e if e is not v else v, at))
+
+    for r in fa.returns():
+        ids = fa.nodes(r)
+        if not ids or r.value is None:
+            continue
+        v = r.value
+        if isinstance(v, ast.Name):
+            ds = fa.df.reaching(ids[0], v.id)
+            if len(ds) > 1 and all(d.kind == "assign" and d.value is not None for d in ds):
+                for d in ds:
+                    for conj in conds(fa, d.node):
+                        split(conj, d.value, d.node)
+                continue
+        for conj in conds(fa, ids[0]):
+            split(conj, v, ids[0])
+    return out
+
+
+def _tagged(e):
+    """{'_mementoType': T, ...} / dict(_mementoType=T, ...) -> (T, {key: value expr}); else None"""
+    if isinstance(e, ast.Dict):
+        ks = [A.const_str(k) if k is not None else None for k in e.keys]
+        if TAG in ks:
+            return A.const_str(e.values[ks.index(TAG)]), {k: v for k, v in zip(ks, e.values) if k is not None}
+    if isinstance(e, ast.Call) and isinstance(e.func, ast.Name) and e.func.id == "dict" and not e.args and any(k.arg == TAG for k in e.keywords):
+        kv = {k.arg: k.value for k in e.keywords if k.arg is not None}
+        return A.const_str(kv[TAG]), kv
+    return None
+
+
+def _isinstance_lit(text, param, typ):
+    e, _ = lit_expr(text, True)
+    if isinstance(e, ast.Call) and isinstance(e.func, ast.Name) and e.func.id == "isinstance" and len(e.args) == 2 and A.norm(e.args[0]) == param:
+        t = e.args[1]
+        return typ in ({A.norm(x) for x in t.elts} if isinstance(t, ast.Tuple) else {A.norm(t)})
+    return False
+
+
+def _leaves(e):
+    """the alternatives an expression chooses between, through `a or b`, conditional expressions and copying wrappers"""
+    e = strip_cast(e)
+    if isinstance(e, ast.BoolOp) and isinstance(e.op, ast.Or):
+        return [x for v in e.values for x in _leaves(v)]
+    if isinstance(e, ast.IfExp):
+        return _leaves(e.body) + _leaves(e.orelse)
+    src = is_copy_of(e)
+    if src is not None:
+        return _leaves(src)
+    if isinstance(e, ast.Call) and isinstance(e.func, ast.Name) and e.func.id in ("tuple", "list") and len(e.args) == 1 and not e.keywords:
+        return _leaves(e.args[0])
+    return [e]
+
+
+def _existing_or_empty(es, existing):
+    """the expressions `es` (alternatives on different paths) are the existing value, or an empty container
+    where there is none"""
+    es = es if isinstance(es, list) else [es]
+    lv = [A.norm(x) for e in es for x in _leaves(e)]
+    return existing in lv and all(x == existing or x in ("()", "{}", "[]", "tuple()", "dict()", "list()") for x in lv)
+
+
+def _out_literals(node):
+    """String pieces that end up in the text a statement builds: constants, and the literal parts of
+    f-strings / str.format / % templates (not the placeholders); error messages are not output."""
+    out = []
+
+    def rec(n):
+        if isinstance(n, ast.Raise):
+            return
+        if isinstance(n, ast.Expr) and isinstance(n.value, ast.Constant):
+            return
+        if isinstance(n, ast.Call) and (A.dotted(n.func) or "").split(".")[0] in ("log", "logging", "logger"):
+            return
+        tmpl = isinstance(n, ast.JoinedStr) or \
+            (isinstance(n, ast.Call) and isinstance(n.func, ast.Attribute) and n.func.attr == "format" and isinstance(n.func.value, ast.Constant)) or \
+            (isinstance(n, ast.BinOp) and isinstance(n.op, ast.Mod) and isinstance(n.left, ast.Constant) and isinstance(n.left.value, str))
+        if tmpl:
+            p = A.str_parts(n)
+            if p is not None:
+                for k, v in p:
+                    if k == "lit":
+                        out.append(("tmpl", v))
+                    else:
+                        rec(v)
+                return
+        if isinstance(n, ast.Constant) and isinstance(n.value, str):
+            out.append(("const", n.value))
+            return
+        for ch in ast.iter_child_nodes(n):
+            rec(ch)
+
+    rec(node)
+    return out
+
+
+def _first_key(fa, k):
+    """a sort key that selects the mapping key of an (key, value) item: absent, lambda t: t[0], itemgetter(0)"""
+    if k is None:
+        return True
+    if isinstance(k, ast.Lambda) and len(k.args.args) == 1 and isinstance(k.body, ast.Subscript) and A.norm(k.body.value) == k.args.args[0].arg \
+            and A.norm(k.body.slice) == "0":
+        return True
+    return A.norm(k) in ("operator.itemgetter(0)", "itemgetter(0)")
 
 
 def check(ck):
@@ -53,14 +187,36 @@ def check(ck):
     enc = FA(ck, AH + "._encode")
     dec = FA(ck, AH + "._decode")
     nj = FA(ck, AH + "._normalized_json")
-    enc_types = _accepted_types(enc)
-    dec_types = _accepted_types(dec)
-    nj_types = _accepted_types(nj)
-    va = ck.repo.func("reference.validate_args").nested.get("validate_arg")
+    EP, DP, NP = enc.fi.params[0], dec.fi.params[0], nj.fi.params[0]
+    enc_types = _value_types(enc, EP)
+    dec_types = _value_types(dec, DP)
+    nj_types = _value_types(nj, NP)
+    # the canonical writer may also be the library's own: json.dumps(obj, sort_keys=True, separators=(',', ':'))
+    def prim_lit(t, p, P):
+        return p and (("%s is None" % P) in t or ("isinstance(%s" % P in t and any(x in t for x in PRIMS)))
+
+    nj_cases = result_cases(nj)
+    n_canon = 0
+    lib_writer = bool(nj_cases)
+    for (conj, v, at) in nj_cases:
+        e = strip_cast(nj.expand(v, at))
+        if not (isinstance(e, ast.Call) and A.call_dotted(e) == "json.dumps" and [A.norm(a) for a in e.args] == [NP]):
+            lib_writer = False
+        elif not e.keywords:
+            lib_writer = lib_writer and any(prim_lit(t, p, NP) for (t, p) in conj)
+        else:
+            okl = {k.arg for k in e.keywords} <= {"sort_keys", "separators", "ensure_ascii", "allow_nan"} \
+                and A.norm(A.kwarg(e, "sort_keys")) == "True" and A.norm(A.kwarg(e, "separators")) in ("(',', ':')", "[',', ':']") \
+                and A.norm(A.kwarg(e, "ensure_ascii")) in ("", "True") and A.norm(A.kwarg(e, "allow_nan")) in ("", "True")
+            lib_writer = lib_writer and okl
+            n_canon += 1
+    lib_writer = lib_writer and n_canon >= 1
+    vas = ck.repo.func("reference.validate_args").nested
+    va = vas.get("validate_arg") or (list(vas.values())[0] if len(vas) == 1 else None)
     ck.need(va is not None, "validate_args.validate_arg not found")
     vfa = FA(ck, va)
-    r = vfa.one(vfa.returns(), "return")
-    val_types = _prim_test_types(r.value)
+    ck.need(bool(vfa.fi.params), "validate_args.validate_arg takes no value")
+    val_types = _value_types(vfa, vfa.fi.params[0])
     miss = val_types - enc_types
     ck.ob(R1, vfa.key(None, "admitted-subset-accepted"), not miss and len(val_types) >= 8,
           "validate_args admits %s, all accepted by the encoder" % sorted(val_types) if not miss else
@@ -70,25 +226,51 @@ def check(ck):
           "the hash encoder no longer accepts %s" % sorted(want - enc_types), enc.where())
     json_level = {"None", "bool", "str", "int", "float", "list", "dict"}
     for (fa, types, what) in ((dec, dec_types, "decoder"), (nj, nj_types, "canonical JSON writer")):
-        ok = json_level <= types
+        ok = json_level <= types or (fa is nj and lib_writer)
         ck.ob(R1, fa.key(None, "json-level-types"), ok, "the %s handles every JSON-level type the encoder emits" % what if ok else
               "the %s does not handle %s, which the encoder emits" % (what, sorted(json_level - types)), fa.where())
     tags_out = set()
     keys_out = {}
-    for d in [n for n in A.walk_body(enc.node) if isinstance(n, ast.Dict)]:
-        ks = [A.const_str(k) for k in d.keys]
-        if "_mementoType" in ks:
-            tag = A.const_str(d.values[ks.index("_mementoType")])
-            tags_out.add(tag)
-            keys_out[tag] = set(ks)
+    tagged_vals = {}
+    for d in [n for n in A.walk_body(enc.node) if isinstance(n, (ast.Dict, ast.Call))]:
+        tg = _tagged(d)
+        if tg is not None:
+            tags_out.add(tg[0])
+            keys_out[tg[0]] = set(tg[1])
+            tagged_vals[tg[0]] = (tg[1], d)
+
+    def tag_read(e, at):
+        """is `e` the value stored under the tag key of the decoder's argument?"""
+        try:
+            x = strip_cast(dec.expand(e, at))
+        except AnalysisError:
+            return False
+        if isinstance(x, ast.Subscript):
+            return A.const_str(x.slice) == TAG and A.norm(x.value) == DP
+        if isinstance(x, ast.Call) and A.call_attr(x) == "get" and x.args and A.const_str(x.args[0]) == TAG:
+            return A.norm(A.call_recv(x)) == DP
+        return False
+
     tags_in = set()
     for n in A.walk_body(dec.node):
-        if isinstance(n, ast.Compare) and isinstance(n.ops[0], ast.Eq) and A.const_str(n.comparators[0]) is not None \
-                and dec.nodes(n) and dec.xnorm(n.left, dec.nodes(n)[0]).endswith("['_mementoType']"):
-            tags_in.add(A.const_str(n.comparators[0]))
+        if isinstance(n, ast.Compare) and len(n.ops) == 1 and dec.nodes(n):
+            at = dec.nodes(n)[0]
+            op, l, r = n.ops[0], n.left, n.comparators[0]
+            if isinstance(op, (ast.Eq, ast.NotEq)):
+                for (a, b) in ((l, r), (r, l)):
+                    if A.const_str(b) is not None and tag_read(a, at):
+                        tags_in.add(A.const_str(b))
+            elif isinstance(op, (ast.In, ast.NotIn)) and isinstance(r, (ast.Tuple, ast.List, ast.Set)) and tag_read(l, at):
+                tags_in |= {A.const_str(x) for x in r.elts if A.const_str(x) is not None}
     ck.ob(R1, dec.key(None, "tags"), tags_out == tags_in and {"datetime", "date", "FunctionReference"} <= tags_out, "type tags agree: %s" % sorted(tags_out) if tags_out == tags_in else
           "type tags differ: encoder emits %s, decoder handles %s" % (sorted(tags_out), sorted(tags_in)), dec.where())
-    keys_in = {A.const_str(n.slice) for n in A.walk_body(dec.node) if isinstance(n, ast.Subscript) and A.norm(n.value) == "arg" and A.const_str(n.slice)}
+    keys_in = set()
+    for n in A.walk_body(dec.node):
+        if isinstance(n, ast.Subscript) and A.const_str(n.slice) and _subject_is(dec, n.value, DP):
+            keys_in.add(A.const_str(n.slice))
+        elif isinstance(n, ast.Call) and A.call_attr(n) in ("get", "pop") and n.args and A.const_str(n.args[0]) and A.call_recv(n) is not None \
+                and _subject_is(dec, A.call_recv(n), DP):
+            keys_in.add(A.const_str(n.args[0]))
     all_out = set().union(*keys_out.values()) if keys_out else set()
     ck.ob(R1, dec.key(None, "tagged-object-keys"), keys_in == all_out, "tagged objects are read with the keys they are written with" if keys_in == all_out else
           "tagged-object keys differ: written %s, read %s" % (sorted(all_out), sorted(keys_in)), dec.where())
@@ -96,19 +278,27 @@ def check(ck):
     spec = {"datetime": {"_mementoType", "iso8601"}, "date": {"_mementoType", "iso8601"},
             "FunctionReference": {"_mementoType", "qualifiedName", "partialArgs", "partialKwargs", "parameterNames"}}
     # the tag key is reserved: a plain dict that carries it must not leave the encoder looking like a tagged
-    # object (it would share the argument hash of the date / reference it imitates and be decoded into it)
+    # object (it would share the argument hash of the date / reference it imitates and be decoded into it).
+    # Decided per path class: whenever the argument is a dict and the result is not a tagged object, the
+    # path has established that the tag key is absent.
     dict_ifs = [i for i in enc.stmts(ast.If) if A.isinstance_types(i.test) and "dict" in A.isinstance_types(i.test)[1]]
-    edi = enc.one(dict_ifs, "dict branch of the hash encoder")
-    tag_tests = [n.id for n in enc.cfg.nodes if n.kind == "test" and isinstance(n.ast, ast.Compare) and len(n.ast.ops) == 1
-                 and isinstance(n.ast.ops[0], (ast.In, ast.NotIn)) and A.const_str(n.ast.left) == "_mementoType" and enc.inside(n.ast, edi)]
-    plain = [r_ for r_ in enc.returns() if enc.inside(r_, edi) and r_.value is not None and not (
-        isinstance(r_.value, ast.Dict) and "_mementoType" in [A.const_str(k_) for k_ in r_.value.keys])]
-    okt = bool(tag_tests) and bool(plain)
-    for t_ in tag_tests:
-        neg = isinstance(enc.cfg.node(t_).ast.ops[0], ast.NotIn)
-        via_has_key = enc.cfg.reach([t_], edge_ok=lambda s_, d_, l_, t_=t_, neg=neg: not (s_ == t_ and l_ == ("T" if neg else "F")), include_start=False)
-        if any(i in via_has_key for r_ in plain for i in enc.nodes(r_)):
-            okt = False
+    edi = dict_ifs[0] if dict_ifs else None
+    cases = result_cases(enc)
+    plain = 0
+    okt = True
+    for (conj, v, at) in cases:
+        if not any(p and _isinstance_lit(t, EP, "dict") for (t, p) in conj):
+            continue
+        try:
+            x = strip_cast(enc.expand(v, at))
+        except AnalysisError:
+            x = v
+        if _tagged(x) is not None:
+            continue
+        plain += 1
+        absent = any((not p) and t in ("'%s' in %s" % (TAG, EP), "'%s' in %s.keys()" % (TAG, EP)) for (t, p) in conj)
+        okt = okt and absent
+    okt = okt and plain >= 1
     ck.ob(R1, enc.key(edi, "tag-key-reserved"), okt,
           "a plain dict that contains the tag key is wrapped / rejected, never passed through as it is" if okt else
           "the dict branch of the hash encoder passes a mapping that contains '_mementoType' through unchanged: {'_mementoType': 'date', 'iso8601': ...} "
@@ -119,133 +309,380 @@ def check(ck):
     pairs = repo_subclass_pairs(ck)
     lad = extract_ladder(enc.node)
     n = check_ladder_order(ck, R1, enc, lad, pairs, "hash-encode")
-    ck.need(n >= 1, "hash encoder ladder: datetime/date order not comparable")
-    iso = [c for c in enc.calls("isoformat")]
-    ck.ob(R1, enc.key(None, "iso8601"), len(iso) == 2, "dates and datetimes are written as isoformat()" if len(iso) == 2 else
+    if n < 1:
+        # not a ladder the extractor reads: decide it on the path classes — a datetime never gets the 'date' tag
+        n_date = 0
+        okd = True
+        for (conj, v, at) in cases:
+            try:
+                tg = _tagged(strip_cast(enc.expand(v, at)))
+            except AnalysisError:
+                tg = None
+            if tg is not None and tg[0] == "date":
+                n_date += 1
+                okd = okd and any((not p) and _isinstance_lit(t, EP, "datetime.datetime") for (t, p) in conj)
+        ck.need(n_date >= 1, "hash encoder ladder: datetime/date order not comparable")
+        ck.ob(R1, enc.key(None, "hash-encode:datetime.datetime-before-datetime.date"), okd,
+              "datetime.datetime is tested before its superclass datetime.date" if okd else
+              "datetime.datetime is tested after its superclass datetime.date: a datetime.datetime value takes the datetime.date branch", enc.where())
+    n_iso = 0
+    for t in ("datetime", "date"):
+        if t in tagged_vals and "iso8601" in tagged_vals[t][0]:
+            v, d = tagged_vals[t]
+            ids = enc.nodes(d)
+            x = strip_cast(enc.expand(v["iso8601"], ids[0])) if ids else v["iso8601"]
+            if isinstance(x, ast.Call) and A.call_attr(x) == "isoformat" and not x.args and not x.keywords and A.norm(A.call_recv(x)) == EP:
+                n_iso += 1
+    ck.ob(R1, enc.key(None, "iso8601"), n_iso == 2, "dates and datetimes are written as isoformat()" if n_iso == 2 else
           "date/datetime encoding no longer uses isoformat()", enc.where())
 
     # ---- R2
     dict_if = [i for i in nj.stmts(ast.If) if A.isinstance_types(i.test) and "dict" in A.isinstance_types(i.test)[1]]
-    di = nj.one(dict_if, "dict branch of _normalized_json")
-    comps = [c for c in A.walk_local(di) if isinstance(c, (ast.ListComp, ast.GeneratorExp))]
-    ok = len(comps) == 1
-    if ok:
-        it = comps[0].generators[0].iter
-        srt = [c for c in ast.walk(it) if isinstance(c, ast.Call) and A.call_attr(c) == "sorted"]
-        ok = len(srt) == 1 and "obj.items()" in A.norm(srt[0].args[0])
-        if ok:
-            k = A.kwarg(srt[0], "key")
-            ok = k is None or A.norm(k) in ("lambda t: t[0]", "lambda kv: kv[0]", "operator.itemgetter(0)", "itemgetter(0)")
-            ok = ok and A.kwarg(srt[0], "reverse") is None
+    di = dict_if[0] if dict_if else None
+    # every traversal of the mapping goes through sorted(...) on the key, ascending
+    views = []   # (node, parent) of obj.items() / obj.keys() / obj.values() / iteration over obj in the dict case
+    pm = nj.pm
+    for n_ in A.walk_body(nj.node):
+        if isinstance(n_, ast.Call) and A.call_attr(n_) in ("items", "keys", "values") and not n_.args and A.call_recv(n_) is not None \
+                and _subject_is(nj, A.call_recv(n_), NP):
+            views.append(n_)
+    srt = [c for c in nj.calls("sorted")]
+    good = []
+    for c in srt:
+        a0 = c.args[0] if c.args else None
+        is_items = a0 in views and A.call_attr(a0) == "items"
+        is_keys = (a0 in views and A.call_attr(a0) == "keys") or (a0 is not None and _subject_is(nj, a0, NP))
+        k = A.kwarg(c, "key")
+        okc_ = len(c.args) == 1 and A.kwarg(c, "reverse") is None and ((is_items and _first_key(nj, k)) or (is_keys and k is None))
+        if okc_:
+            good.append(c)
+    ok = bool(good) and len(good) == len(srt) and all(any(v is c.args[0] for c in good) for v in views if A.call_attr(v) != "values")
+    ok = ok or lib_writer
     ck.ob(R2, nj.key(di, "sorted-by-key"), ok, "mapping entries are written in ascending key order" if ok else
           "mapping entries are not written in key-sorted order: insertion order changes the hash", nj.where(di))
-    lits = set(A.strings_in(ast.Module(body=[s for s in nj.node.body if isinstance(s, ast.If)], type_ignores=[])))
-    seps = {s for s in lits if len(s) <= 2 and not s.isalnum()}
-    ck.ob(R2, nj.key(None, "separators"), seps == {"[", ",", "]", "{", ":", "}"}, "separators are exactly [ , ] { : } with no whitespace" if seps == {"[", ",", "]", "{", ":", "}"} else
+    pieces = []
+    for s in nj.node.body:
+        pieces += _out_literals(s)
+    seps = {v for (k, v) in pieces if v and (k == "tmpl" or (len(v) <= 4 and not any(ch.isalnum() for ch in v)))}
+    chars = set("".join(seps))
+    oksep = chars == {"[", ",", "]", "{", ":", "}"} or lib_writer
+    ck.ob(R2, nj.key(None, "separators"), oksep, "separators are exactly [ , ] { : } with no whitespace" if oksep else
           "canonical JSON separators are %s" % sorted(seps), nj.where())
-    kd = [c for c in A.calls_in(di) if A.call_dotted(c) == "json.dumps"]
-    okk = len(kd) == 1 and [A.norm(a) for a in kd[0].args] == [A.norm(comps[0].generators[0].target.elts[0])] if ok and isinstance(comps[0].generators[0].target, ast.Tuple) else False
+    # the key of every entry is written as a JSON string literal: json.dumps(<key variable of the sorted traversal>)
+    okk = lib_writer
+    for c in good:
+        par = pm.get(c)
+        while isinstance(par, ast.Call) and A.call_attr(par) in ("list", "tuple") and par.args == [c]:
+            c, par = par, pm.get(par)
+        tgt = None
+        scope = None
+        if isinstance(par, ast.comprehension) and par.iter is c:
+            tgt = par.target
+            scope = pm.get(par)
+        elif isinstance(par, ast.For) and par.iter is c:
+            tgt, scope = par.target, par
+        elif isinstance(par, ast.Assign) and len(par.targets) == 1 and isinstance(par.targets[0], ast.Name):
+            nm = par.targets[0].id
+            for n_ in A.walk_body(nj.node):
+                it = n_.iter if isinstance(n_, (ast.comprehension, ast.For)) else None
+                if isinstance(it, ast.Name) and it.id == nm:
+                    tgt, scope = n_.target, (pm.get(n_) if isinstance(n_, ast.comprehension) else n_)
+        if tgt is None or scope is None:
+            continue
+        kv = tgt.elts[0] if isinstance(tgt, ast.Tuple) and tgt.elts else tgt
+        if isinstance(kv, ast.Name):
+            okk = okk or any(isinstance(x, ast.Call) and A.call_dotted(x) == "json.dumps" and [A.norm(a) for a in x.args] == [kv.id] and not x.keywords
+                             for x in ast.walk(scope))
     ck.ob(R2, nj.key(di, "keys-json-quoted"), bool(okk), "keys are JSON string literals" if okk else "mapping keys are not written with json.dumps(key)", nj.where(di))
-    prim = [i for i in nj.stmts(ast.If) if "None" in _prim_test_types(i.test)]
-    okp = len(prim) == 1 and any(isinstance(s, ast.Return) and A.norm(s.value) == "json.dumps(obj)" for s in prim[0].body)
+    okp = lib_writer
+    for (conj, v, at) in nj_cases:
+        try:
+            txt = nj.xnorm(v, at)
+        except AnalysisError:
+            txt = A.norm(v)
+        if txt == "json.dumps(%s)" % NP and any(prim_lit(t, p, NP) for (t, p) in conj):
+            okp = True
     ck.ob(R2, nj.key(None, "primitives"), okp, "primitives are written by json.dumps" if okp else "primitives are not written with json.dumps(obj)", nj.where())
-    rec = [c for c in nj.calls("_normalized_json")]
-    ck.ob(R2, nj.key(None, "recursive"), len(rec) >= 2, "lists and mappings recurse" if len(rec) >= 2 else "nested values are not normalised recursively", nj.where())
+    own = nj.fi.name
+    rec = [x for x in A.walk_body(nj.node) if (isinstance(x, ast.Attribute) and x.attr == own) or (isinstance(x, ast.Name) and x.id == own)]
+    okrec = len(rec) >= 2 or lib_writer
+    ck.ob(R2, nj.key(None, "recursive"), okrec, "lists and mappings recurse" if okrec else "nested values are not normalised recursively", nj.where())
     ch = FA(ck, AH + ".compute_hash")
-    sha = ch.calls("sha256")
-    oka = len(sha) == 1 and A.call_dotted(sha[0]) == "hashlib.sha256"
+    CP = ch.fi.params[0]
+    imports = getattr(ch.fi.module, "imports", {}) or {}
+
+    def is_sha256(c):
+        d = A.call_dotted(c)
+        if d == "hashlib.sha256" or (d == "sha256" and str(imports.get("sha256", "")).endswith(":sha256")):
+            return True
+        return d == "hashlib.new" and bool(c.args) and A.const_str(c.args[0]) == "sha256"
+
+    hashers = [c for c in ch.calls() if A.call_attr(c) in ("sha256", "md5", "sha1", "sha512", "sha224", "sha384", "blake2b", "blake2s", "new", "sha3_256")
+               and (A.call_dotted(c) or "").split(".")[0] in ("hashlib", "sha256", "md5", "sha1", "sha512")]
+    oka = len(hashers) == 1 and is_sha256(hashers[0])
     ck.ob(R2, ch.key(None, "sha256"), oka, "SHA-256" if oka else "the argument hash is not hashlib.sha256", ch.where())
-    up = ch.one(ch.calls("update"), "digest update")
-    d = ch.deps(up.args[0])
-    oku = "call:_normalized_json" in d and "call:_encode" in d and "param:effective_kwargs" in d and "const:'utf-8'" in d
+    # what is fed to the digest: update(...) arguments and the constructor's data argument
+    feeds = []
+    for c in ch.calls("update"):
+        recv = A.call_recv(c)
+        o_ = origin(ch, recv, ch.nodes(c)[0]) if recv is not None and ch.nodes(c) else None
+        made = strip_cast(o_.value) if o_ is not None else (strip_cast(recv) if recv is not None else None)
+        if c.args and (any(made is h for h in hashers) or not hashers):
+            feeds.append((c, c.args[0]))
+    for c in hashers:
+        data = [a for a in c.args if not (A.call_dotted(c) == "hashlib.new" and a is c.args[0])]
+        if data:
+            feeds.append((c, data[0]))
+    if not feeds:
+        raise AnalysisError("%s: expected a digest update, found none" % ch.qual)
+    up = feeds[0][0]
+    oku = len(feeds) == 1
+    if oku:
+        x = feeds[0][1]
+        at = ch.nodes(x)[0] if ch.nodes(x) else None
+        d = ch.deps(x)
+        oku = "call:_normalized_json" in d and "call:_encode" in d and ("param:" + CP) in d
+        utf8 = any(("const:%r" % u) in d for u in ("utf-8", "utf8", "UTF-8", "utf_8"))
+        if not utf8 and at is not None:
+            e = strip_cast(ch.expand(x, at))
+            utf8 = isinstance(e, ast.Call) and A.call_attr(e) == "encode" and not e.args and not e.keywords
+        oku = oku and utf8
     ck.ob(R2, ch.key(up, "input"), oku, "the digest input is utf-8(normalized_json(encode(effective kwargs)))" if oku else
           "the digest input is not the UTF-8 canonical JSON of the encoded effective kwargs", ch.where(up))
-    rets = ch.returns()
-    okr = len(rets) == 1 and "call:hexdigest" in ch.deps(rets[0].value) and not any(isinstance(n, ast.Subscript) for s in ch.stmts(ast.Assign) for n in ast.walk(s.value) if "hexdigest" in A.norm(s.value))
+    rets = [r for r in ch.returns() if ch.nodes(r)]
+    okr = bool(rets)
+    for r in rets:
+        e = strip_cast(ch.expand(r.value, ch.nodes(r)[0])) if r.value is not None else None
+        okr = okr and isinstance(e, ast.Call) and A.call_attr(e) == "hexdigest" and not e.args and not e.keywords
     ck.ob(R2, ch.key(None, "full-hex"), okr, "the full lowercase hex digest is the hash" if okr else "the argument hash is truncated or not the hex digest", ch.where())
 
     # ---- R3
     nm = FA(ck, AH + ".normalize")
-    rr = nm.returns()
-    okn = bool(rr) and "call:_decode" in nm.deps(rr[0].value) and "call:_encode" in nm.deps(rr[0].value)
+    rr = [r for r in nm.returns() if nm.nodes(r)]
+    okn = bool(rr) and all(r.value is not None and "call:_decode" in nm.deps(r.value) and "call:_encode" in nm.deps(r.value) for r in rr)
     ck.ob(R3, nm.key(None), okn, "normalize = decode(encode(x))" if okn else "normalize is no longer decode(encode(x))", nm.where())
-    ini = FA(ck, FRA + ".__init__")
+    fl = FlatInit(ck)
+    ini = fl.fa
+    EXIT = fl.exit
+    EMPTY = ("()", "[]", "{}", "tuple()", "list()", "dict()", "tuple([])", "tuple(())")
+
+    def normalised_field(fa, field, src):
+        ds = fa.df.reaching(fa.cfg.exit, "self." + field)
+        if not ds or any(d.kind != "assign" or d.value is None for d in ds):
+            return False
+        n_norm = 0
+        for d in ds:
+            dp = fa.deps(d.value, d.node)
+            if ("call:normalize" in dp or ("call:_decode" in dp and "call:_encode" in dp)) and ("param:" + src) in dp:
+                n_norm += 1
+            elif fa.xnorm(d.value, d.node) not in EMPTY:
+                return False
+        return n_norm >= 1
+
     for field, src in (("args", "args"), ("kwargs", "kwargs"), ("context_args", "context_args")):
-        st = [s for s in ini.stmts(ast.Assign) if any(A.dotted(t) == "self." + field for t in s.targets)]
-        ok = len(st) == 1
-        if ok:
-            d = ini.deps(st[0].value)
-            ok = "call:normalize" in d and ("param:" + src) in d
+        ok = normalised_field(ini, field, src)
         ck.ob(R3, ini.key(None, "normalised-" + field), ok, "self.%s holds the normalised values" % field if ok else
               "self.%s is stored without ArgumentHasher.normalize: the body sees other values than the key was computed from" % field, ini.where())
-    ek = [s for s in ini.stmts(ast.Assign) if any(A.dotted(t) == "self.effective_kwargs" for t in s.targets)]
-    okE = len(ek) == 1 and A.norm(ek[0].value) == "self._compute_effective_kwargs()"
-    # computed after the normalised fields are set
-    if okE:
-        for field in ("args", "kwargs"):
-            st = [s for s in ini.stmts(ast.Assign) if any(A.dotted(t) == "self." + field for t in s.targets)]
-            okE = okE and all(ini.cfg.must_pass(ini.nodes_all(st), i) for i in ini.nodes(ek[0]))
+    ek, hk = fl.ek, fl.hk
+    # every read of the normalised fields (and every helper left as a call) sees their final values
+    okE = ek is not None
+    for n_ in A.walk_body(ini.node):
+        ids = ini.nodes(n_) if isinstance(n_, (ast.Attribute, ast.Call)) else []
+        if not ids:
+            continue
+        reads = []
+        if isinstance(n_, ast.Attribute) and isinstance(n_.ctx, ast.Load) and _ref_name(n_) in ("self.args", "self.kwargs", "self.context_args", "self.effective_kwargs"):
+            reads = [_ref_name(n_)]
+        elif isinstance(n_, ast.Call) and isinstance(n_.func, ast.Attribute) and isinstance(n_.func.value, ast.Name) and n_.func.value.id == "self" \
+                and n_.func.attr.startswith("_") and not n_.func.attr.endswith("__"):
+            reads = ["self.args", "self.kwargs"]
+        for nm_ in reads:
+            fin = {(d.node, d.name) for d in ini.df.reaching(EXIT, nm_)}
+            okE = okE and all(fin and {(d.node, d.name) for d in ini.df.reaching(i, nm_)} == fin for i in ids)
     ck.ob(R3, ini.key(None, "effective-after-normalise"), okE, "effective kwargs are computed from the normalised fields" if okE else
           "effective_kwargs is computed before / without the normalised args and kwargs", ini.where())
-    ekc = [s for s in ini.stmts(ast.Assign) if any(A.dotted(t) == "self.effective_kwargs_with_context_args" for t in s.targets)]
-    okC = len(ekc) == 1 and ek and all(ini.cfg.must_pass(ini.nodes(ek[0]), i) for i in ini.nodes(ekc[0]))
-    ah = [s for s in ini.stmts(ast.Assign) if any(A.dotted(t) == "self.arg_hash" for t in s.targets)]
-    okC = okC and len(ah) == 1 and all(ini.cfg.must_pass(ini.nodes(ekc[0]), i) for i in ini.nodes(ah[0]))
+
+    def mutations(fa_, d):
+        """statements that change the mapping created by definition d: [(stmt, node ids)]"""
+        out = []
+        for s in fa_.stmts((ast.Assign, ast.AugAssign, ast.Expr, ast.Delete)):
+            ids = fa_.nodes(s)
+            if not ids:
+                continue
+            tg = []
+            if isinstance(s, ast.Assign):
+                tg = [t.value for t in s.targets if isinstance(t, ast.Subscript)]
+            elif isinstance(s, ast.AugAssign):
+                tg = [s.target.value] if isinstance(s.target, ast.Subscript) else ([s.target] if isinstance(s.op, ast.BitOr) else [])
+            elif isinstance(s, ast.Delete):
+                tg = [t.value for t in s.targets if isinstance(t, ast.Subscript)]
+            elif isinstance(s.value, ast.Call) and A.call_attr(s.value) in ("update", "setdefault", "pop", "clear", "popitem") and A.call_recv(s.value) is not None:
+                tg = [A.call_recv(s.value)]
+            if any(same_def(origin(fa_, t, ids[0]), d) for t in tg):
+                out.append((s, ids))
+        return out
+
+    ek_muts = mutations(ini, ek) if ek is not None else []
+    okC = fl.hash_call is not None and hk is not None and ek is not None
+    if okC:
+        src = is_copy_of(hk.value)
+        okC = same_def(hk, ek) or (src is not None and same_def(origin(ini, src, hk.node), ek))
+        # the mapping is complete when the hash (input) is taken
+        late_from = [hk.node] if not same_def(hk, ek) else [fl.hash_at]
+        after = ini.cfg.reach(late_from, include_start=False)
+        okC = okC and not any(set(ids) & after for (s, ids) in ek_muts)
     ck.ob(R3, ini.key(None, "hash-after-effective"), bool(okC), "the hash is computed from the effective kwargs (+ context args)" if okC else
           "arg_hash is not computed after effective_kwargs / effective_kwargs_with_context_args", ini.where())
-    ce = FA(ck, FRA + "._compute_effective_kwargs")
-    cfg = ce.cfg
-    # roles, not names: RES is the local that is returned; everything else is compared on expansions
-    rt = ce.returns()
-    RES = rt[0].value.id if len(rt) == 1 and isinstance(rt[0].value, ast.Name) else None
-    ck.ob(R3, ce.key(None, "returns-result"), RES is not None, "the bound mapping is returned" if RES else "the bound mapping is not what is returned", ce.where())
-    start = [s for s in ce.stmts(ast.Assign) if any(isinstance(t, ast.Name) and t.id == RES for t in s.targets)]
-    ok1 = len(start) == 1 and ce.xnorm(start[0].value) == "dict(self.fn_reference.partial_kwargs)"
-    ck.ob(R3, ce.key(None, "starts-from-partial-kwargs"), ok1, "effective kwargs start from a copy of the partial kwargs" if ok1 else
-          "effective kwargs do not start from a copy of the reference's partial kwargs", ce.where())
-    sets = [s for s in ce.stmts(ast.Assign) if any(isinstance(t, ast.Subscript) and A.norm(t.value) == RES for t in s.targets)]
-    pairs = set()
-    rem_name = None
-    for s_ in sets:
-        t_ = s_.targets[0]
-        if isinstance(t_.slice, ast.Subscript) and isinstance(s_.value, ast.Subscript) and A.norm(t_.slice.slice) == A.norm(s_.value.slice):
-            at = ce.nodes(s_)[0]
-            nm, vl = ce.xnorm(t_.slice.value, at), ce.xnorm(s_.value.value, at)
-            if vl == "self.args" and isinstance(t_.slice.value, ast.Name):
-                rem_name = t_.slice.value.id
-                rd = ce.df.reaching(at, rem_name)
-                nm = "<remaining>" if len(rd) == 1 and isinstance(rd[0].value, ast.ListComp) else nm
-            pairs.add((nm, vl))
+    # ---- how the effective kwargs are bound (the statements may live in a helper or in the constructor itself;
+    # a helper that could not be flattened into the constructor is looked at on its own)
+    bfa, bek = ini, ek
+    if ek is not None:
+        v_ = strip_cast(ek.value)
+        if isinstance(v_, ast.Call) and isinstance(v_.func, ast.Attribute) and A.norm(v_.func.value) == "self" and not v_.args and not v_.keywords:
+            helper = ck.repo.find_method(ini.fi.cls, v_.func.attr)
+            if helper is not None and helper.node is not ini.fi.node:
+                hfa = FA(ck, helper)
+                os_ = [origin(hfa, r.value, hfa.nodes(r)[0]) for r in hfa.returns() if hfa.nodes(r) and r.value is not None]
+                if os_ and all(same_def(os_[0], o) for o in os_):
+                    bfa, bek = hfa, os_[0]
+    ek_muts = mutations(bfa, bek) if bek is not None else []
+    CE_Q = FRA + "._compute_effective_kwargs"
+    where_ce = bfa.where(bek.stmt) if bek is not None and bek.stmt is not None else bfa.where()
+    ck.ob(R3, CE_Q + "::returns-result", bek is not None, "the bound mapping is returned" if bek is not None else "the bound mapping is not what is returned", where_ce)
+    self_ref = ast.parse("self.fn_reference", mode="eval").body
+    REF = ftext(bfa, self_ref, bfa.cfg.exit) if bek is None else ftext(bfa, self_ref, bek.node)
+    ok1 = False
+    if bek is not None:
+        s0 = is_copy_of(bek.value)
+        ok1 = s0 is not None and ftext(bfa, s0, bek.node) == REF + ".partial_kwargs"
+    ck.ob(R3, CE_Q + "::starts-from-partial-kwargs", ok1, "effective kwargs start from a copy of the partial kwargs" if ok1 else
+          "effective kwargs do not start from a copy of the reference's partial kwargs", where_ce)
+
+    def is_ek(e, at):
+        return bek is not None and same_def(origin(bfa, e, at), bek)
+
+    pos_bind = []   # (names expr, values expr, node, stmt)
+    kw_merge = []   # (source expr, node, stmt)
+    odd = []
+    for (s, ids) in ek_muts:
+        at = ids[0]
+        if isinstance(s, ast.Assign) and len(s.targets) == 1 and isinstance(s.targets[0], ast.Subscript):
+            K, V = s.targets[0].slice, s.value
+            loop = bfa.enclosing(s, (ast.For, ast.While))
+            done = False
+            if isinstance(loop, ast.For) and not loop.orelse:
+                it, tg = strip_cast(loop.iter), loop.target
+                if isinstance(tg, ast.Name) and isinstance(K, ast.Subscript) and isinstance(V, ast.Subscript) and A.norm(K.slice) == tg.id == A.norm(V.slice) \
+                        and isinstance(it, ast.Call) and A.call_attr(it) == "range":
+                    pos_bind.append((K.value, V.value, at, s))
+                    done = True
+                elif isinstance(tg, ast.Tuple) and len(tg.elts) == 2 and all(isinstance(x, ast.Name) for x in tg.elts) and isinstance(it, ast.Call):
+                    a, b = tg.elts[0].id, tg.elts[1].id
+                    if A.call_attr(it) == "zip" and len(it.args) == 2 and A.norm(K) == a and A.norm(V) == b:
+                        pos_bind.append((it.args[0], it.args[1], at, s))
+                        done = True
+                    elif A.call_attr(it) == "enumerate" and len(it.args) == 1 and isinstance(K, ast.Subscript) and A.norm(K.slice) == a and A.norm(V) == b:
+                        pos_bind.append((K.value, it.args[0], at, s))
+                        done = True
+                    elif A.call_attr(it) == "enumerate" and len(it.args) == 1 and isinstance(V, ast.Subscript) and A.norm(V.slice) == a and A.norm(K) == b:
+                        pos_bind.append((it.args[0], V.value, at, s))
+                        done = True
+                    elif A.call_attr(it) == "items" and not it.args and A.norm(K) == a and A.norm(V) == b:
+                        kw_merge.append((A.call_recv(it), at, s))
+                        done = True
+            if not done:
+                odd.append((A.norm(s.targets[0]), A.norm(V)))
+        elif isinstance(s, ast.Expr) and A.call_attr(s.value) == "update":
+            c = s.value
+            a0 = strip_cast(c.args[0]) if len(c.args) == 1 and not c.keywords else None
+            if a0 is not None and isinstance(a0, ast.Call) and A.call_attr(a0) == "dict" and len(a0.args) == 1 and not a0.keywords:
+                a0 = a0.args[0]
+            if a0 is not None and isinstance(a0, ast.Call) and A.call_attr(a0) == "zip" and len(a0.args) == 2:
+                pos_bind.append((a0.args[0], a0.args[1], at, s))
+            elif a0 is not None:
+                kw_merge.append((a0, at, s))
+            elif not c.args and len(c.keywords) == 1 and c.keywords[0].arg is None:
+                kw_merge.append((c.keywords[0].value, at, s))
+            else:
+                odd.append((A.norm(c), ""))
         else:
-            pairs.add((A.norm(t_), A.norm(s_.value)))
-    ok2 = pairs == {("self.fn_reference.parameter_names", "self.fn_reference.partial_args"), ("<remaining>", "self.args")}
-    ck.ob(R3, ce.key(None, "positional-by-name"), ok2, "partial and positional args are bound to parameter names in order" if ok2 else
-          "positional arguments are not bound as result[names[i]] = values[i]: %s" % sorted(pairs), ce.where())
-    rem = [s for s in ce.stmts(ast.Assign) if rem_name is not None and any(isinstance(t, ast.Name) and t.id == rem_name for t in s.targets)]
+            odd.append((A.short(s, 60), ""))
+    self_args = ast.parse("self.args", mode="eval").body
+    self_kwargs = ast.parse("self.kwargs", mode="eval").body
+    pairs = set(odd)
+    rem = None     # (names expression, node) of the binding of the call's positional arguments
+    def unsliced(e):
+        # a prefix of a sequence keeps its order: names[:n] binds like names
+        e = strip_cast(e)
+        while isinstance(e, ast.Subscript) and isinstance(e.slice, ast.Slice) and e.slice.step is None \
+                and (e.slice.lower is None or A.norm(e.slice.lower) == "0"):
+            e = strip_cast(e.value)
+        return e
+
+    pos_bind = [(unsliced(N), unsliced(S), at, s) for (N, S, at, s) in pos_bind]
+    for (N, S, at, s) in pos_bind:
+        nt, vt = ftext(bfa, N, at), ftext(bfa, S, at)
+        if vt == ftext(bfa, self_args, at):
+            rem = (N, at, s)
+            nt = "<remaining>"
+        pairs.add((nt, vt))
+    ok2 = rem is not None and pairs == {(REF + ".parameter_names", REF + ".partial_args"), ("<remaining>", ftext(bfa, self_args, rem[1]))}
+    ck.ob(R3, CE_Q + "::positional-by-name", ok2, "partial and positional args are bound to parameter names in order" if ok2 else
+          "positional arguments are not bound as result[names[i]] = values[i]: %s" % sorted(pairs), where_ce)
+    # the names the call's positional arguments go to: the parameters not yet bound, in signature order
     ok3 = False
-    if len(rem) == 1 and isinstance(rem[0].value, ast.ListComp) and len(rem[0].value.generators) == 1:
-        g_ = rem[0].value.generators[0]
-        tv = g_.target.id if isinstance(g_.target, ast.Name) else None
-        ok3 = tv is not None and ce.xnorm(g_.iter, ce.nodes(rem[0])[0]) == "self.fn_reference.parameter_names" \
-            and [A.norm(c) for c in g_.ifs] == ["%s not in %s" % (tv, RES)] and A.norm(rem[0].value.elt) == tv
-    ck.ob(R3, ce.key(None, "remaining-names"), ok3, "positional args fill the parameters not yet bound, in order" if ok3 else
-          "remaining parameter names are not [name for name in parameter_names if name not in result]", ce.where())
-    upd = [c for c in ce.calls("update") if A.norm(A.call_recv(c)) == RES]
-    ok4 = len(upd) == 1 and [A.norm(a) for a in upd[0].args] == ["self.kwargs"]
+    if rem is not None:
+        N, at, s_args = rem
+        rd = origin(bfa, N, at)
+        comp, cat = (strip_cast(rd.value), rd.node) if rd is not None else (strip_cast(N), at)
+        while isinstance(comp, ast.Call) and isinstance(comp.func, ast.Name) and comp.func.id in ("list", "tuple") and len(comp.args) == 1 and not comp.keywords:
+            comp = strip_cast(comp.args[0])
+
+        def unbound_test(test, tv, at_):
+            e, pol = lit_expr(A.norm(test), True)
+            if not (isinstance(e, ast.Compare) and len(e.ops) == 1 and isinstance(e.ops[0], ast.In) and not pol and A.norm(e.left) == tv):
+                return False
+            r = e.comparators[0]
+            if isinstance(r, ast.Call) and A.call_attr(r) == "keys" and not r.args:
+                r = A.call_recv(r)
+            return _ref_name(r) is not None and is_ek(r, at_)
+
+        part_nodes = [at_ for (N_, S_, at_, s_) in pos_bind if s_ is not s_args]
+        if isinstance(comp, (ast.ListComp, ast.GeneratorExp)) and len(comp.generators) == 1 and isinstance(comp.generators[0].target, ast.Name):
+            g_ = comp.generators[0]
+            tv = g_.target.id
+            ok3 = A.norm(comp.elt) == tv and ftext(bfa, g_.iter, cat) == REF + ".parameter_names" and len(g_.ifs) == 1 and unbound_test(g_.ifs[0], tv, cat)
+        elif rd is not None and A.norm(comp) in ("[]", "list()"):
+            # for name in parameter_names: if name not in result: remaining.append(name)
+            apps = [c for c in bfa.calls("append") if bfa.nodes(c) and A.call_recv(c) is not None and same_def(origin(bfa, A.call_recv(c), bfa.nodes(c)[0]), rd)]
+            if len(apps) == 1 and len(apps[0].args) == 1 and isinstance(apps[0].args[0], ast.Name):
+                tv = apps[0].args[0].id
+                st = bfa.stmt_of(apps[0])
+                loop = bfa.enclosing(st, (ast.For, ast.While))
+                gi = bfa.enclosing(st, ast.If)
+                ok3 = isinstance(loop, ast.For) and isinstance(loop.target, ast.Name) and loop.target.id == tv and not loop.orelse \
+                    and A.sig_stmts(loop.body) == [gi] and gi is not None and not gi.orelse and A.sig_stmts(gi.body) == [st] \
+                    and ftext(bfa, loop.iter, bfa.nodes(st)[0]) == REF + ".parameter_names" and unbound_test(gi.test, tv, bfa.nodes(st)[0])
+                cat = bfa.nodes(st)[0]
+        # taken after the partial arguments are bound
+        ok3 = ok3 and not any(pn in bfa.cfg.reach([cat], include_start=False) for pn in part_nodes if pn != cat)
+    ck.ob(R3, CE_Q + "::remaining-names", ok3, "positional args fill the parameters not yet bound, in order" if ok3 else
+          "remaining parameter names are not [name for name in parameter_names if name not in result]", where_ce)
+    ok4 = len(kw_merge) == 1 and ftext(bfa, kw_merge[0][0], kw_merge[0][1]) == ftext(bfa, self_kwargs, kw_merge[0][1])
     if ok4:
-        # kwargs are applied last: no positional binding after the update
-        late = [s for s in sets if set(ce.nodes(s)) & cfg.reach(ce.nodes(upd[0]), include_start=False)]
-        ok4 = not late
-    ck.ob(R3, ce.key(None, "kwargs-last"), ok4, "keyword arguments are applied last" if ok4 else
-          "keyword arguments are not merged last with result.update(self.kwargs)", ce.where())
+        # kwargs are applied last: no positional binding after the merge
+        after = bfa.cfg.reach(bfa.nodes(kw_merge[0][2]), include_start=False)
+        ok4 = not any(at_ in after for (N_, S_, at_, s_) in pos_bind) and not odd
+    ck.ob(R3, CE_Q + "::kwargs-last", ok4, "keyword arguments are applied last" if ok4 else
+          "keyword arguments are not merged last with result.update(self.kwargs)", where_ce)
     fr = FA(ck, "reference.FunctionReference.__init__")
-    for field in ("_partial_args", "_partial_kwargs"):
-        st = [s for s in fr.stmts(ast.Assign) if any(A.dotted(t) == "self." + field for t in s.targets)]
-        ok = len(st) == 1 and "call:normalize" in fr.deps(st[0].value)
+    for field, src in (("_partial_args", "partial_args"), ("_partial_kwargs", "partial_kwargs")):
+        ok = normalised_field(fr, field, src)
         ck.ob(R3, fr.key(None, "normalised" + field), ok, "partial arguments are normalised on the reference" if ok else
               "self.%s is stored without normalisation" % field, fr.where())
-    pn = [s for s in fr.stmts(ast.Assign) if any(A.dotted(t) == "self.parameter_names" for t in s.targets)]
-    okpn = any("inspect.signature(memento_fn.fn).parameters.keys()" in A.norm(s.value) for s in pn)
+    pn = [s for s in fr.stmts(ast.Assign) if any(A.dotted(t) == "self.parameter_names" for t in s.targets) and fr.nodes(s)]
+    mf = "memento_fn" if "memento_fn" in fr.fi.params else (fr.fi.params[1] if len(fr.fi.params) > 1 else "memento_fn")
+    okpn = any("signature(%s.fn).parameters" % mf in fr.xnorm(s.value, fr.nodes(s)[0]) for s in pn)
     ck.ob(R3, fr.key(None, "parameter-names"), okpn, "parameter names come from the function's signature, in order" if okpn else
           "parameter_names are not list(inspect.signature(memento_fn.fn).parameters.keys())", fr.where())
     # the canonical writer and the encoder never re-bind (coerce) the value they are given
@@ -269,20 +706,46 @@ def check(ck):
                     ck.ob(R3, pa.key(c, "mutates-fresh-copy:" + nm), fresh, "%s is a fresh copy before it is updated" % nm if fresh else
                           "`%s` updates `%s`, which can be the parent reference's own dict (`%s`): deriving a second partial silently changes the key "
                           "and the bound arguments of the first" % (A.short(c, 40), nm, A.short(v, 50)), pa.where(c))
-    cw = [c for c in pa.calls("clone_with")]
-    okpa = len(cw) == 1 and isinstance(A.kwarg(cw[0], "partial_args"), ast.Name) and isinstance(A.kwarg(cw[0], "partial_kwargs"), ast.Name)
+    cw = [c for c in pa.calls("clone_with") if pa.nodes(c)]
+    varg = pa.fi.node.args.vararg.arg if pa.fi.node.args.vararg else None
+    kwarg_ = pa.fi.node.args.kwarg.arg if pa.fi.node.args.kwarg else None
+    okpa = len(cw) == 1 and A.kwarg(cw[0], "partial_args") is not None and A.kwarg(cw[0], "partial_kwargs") is not None and varg is not None and kwarg_ is not None
     if okpa:
-        PA, PK = A.kwarg(cw[0], "partial_args").id, A.kwarg(cw[0], "partial_kwargs").id
         at = pa.nodes(cw[0])[0]
-        da = pa.df.reaching(at, PA)
+        XA, XK = "self.fn_reference().partial_args", "self.fn_reference().partial_kwargs"
+
+        def new_positional(e):
+            e = strip_cast(e)
+            if isinstance(e, ast.Call) and isinstance(e.func, ast.Name) and e.func.id == "tuple" and len(e.args) == 1:
+                e = e.args[0]
+            return isinstance(e, ast.Name) and e.id == varg
+
         # existing positionals first, the new ones appended
-        aug = [d for d in da if d.kind == "aug" and isinstance(d.stmt.op, ast.Add) and A.norm(d.value) == "partial_args"]
-        base = [d for d in da if d.kind == "assign"]
-        okpa = len(aug) == 1 and len(base) == 1 and pa.xnorm(base[0].value, base[0].node) == "self.fn_reference().partial_args or ()"
-        dk = [d for d in pa.df.reaching(at, PK) if d.kind == "assign"]
-        upd = [c for c in pa.calls("update") if A.norm(A.call_recv(c)) == PK and [A.norm(a) for a in c.args] == ["partial_kwargs"]]
-        okpa = okpa and len(dk) == 1 and "self.fn_reference().partial_kwargs" in pa.xnorm(dk[0].value, dk[0].node) and len(upd) == 1 \
-            and all(pa.cfg.must_pass(pa.nodes(upd[0]), i) for i in pa.nodes(cw[0]))
+        va_, vk_ = A.kwarg(cw[0], "partial_args"), A.kwarg(cw[0], "partial_kwargs")
+        oka_ = False
+        if isinstance(va_, ast.Name):
+            da = pa.df.reaching(at, va_.id)
+            aug = [d for d in da if d.kind == "aug" and isinstance(d.stmt.op, ast.Add) and new_positional(d.value)]
+            base = [d for d in da if d.kind == "assign"]
+            oka_ = len(aug) == 1 and len(da) == len(aug) + len(base) and bool(base) and _existing_or_empty([pa.expand(d.value, d.node) for d in base], XA)
+        if not oka_:
+            e = strip_cast(pa.expand(va_, at))
+            oka_ = isinstance(e, ast.BinOp) and isinstance(e.op, ast.Add) and _existing_or_empty(e.left, XA) and new_positional(e.right)
+        # existing keywords copied, the new ones override
+        okk_ = False
+        if isinstance(vk_, ast.Name):
+            dk = [d for d in pa.df.reaching(at, vk_.id)]
+            upd = [c for c in pa.calls("update") if A.norm(A.call_recv(c)) == vk_.id and
+                   ([A.norm(a) for a in c.args] == [kwarg_] and not c.keywords or (not c.args and len(c.keywords) == 1 and c.keywords[0].arg is None and A.norm(c.keywords[0].value) == kwarg_))]
+            okk_ = bool(dk) and all(d.kind == "assign" and d.value is not None for d in dk) and _existing_or_empty([pa.expand(d.value, d.node) for d in dk], XK) \
+                and len(upd) == 1 and all(pa.cfg.must_pass(pa.nodes(upd[0]), i) for i in pa.nodes(cw[0]))
+        if not okk_:
+            e = strip_cast(pa.expand(vk_, at))
+            if isinstance(e, ast.Dict) and len(e.keys) == 2 and e.keys[0] is None and e.keys[1] is None:
+                okk_ = _existing_or_empty(e.values[0], XK) and A.norm(e.values[1]) == kwarg_
+            elif isinstance(e, ast.Call) and isinstance(e.func, ast.Name) and e.func.id == "dict" and len(e.args) == 1 and len(e.keywords) == 1 and e.keywords[0].arg is None:
+                okk_ = _existing_or_empty(e.args[0], XK) and A.norm(e.keywords[0].value) == kwarg_
+        okpa = oka_ and okk_
     ck.ob(R3, pa.key(None, "accumulates"), okpa, "partial() appends positional and updates keyword partials on a clone" if okpa else
           "partial() no longer accumulates (existing partials + new ones) into the clone", pa.where())
     ck.run(check_typed_identity, ck, "C04.R4", ("reference", "base"))
